@@ -107,7 +107,7 @@ def main():
             "kind_free_text": "hand-rolled explicit-state model checker in Rust: the transition function is the crate itself (path dependency on /repo, rebuilt on every check), states are identified by the index tables read through the hook, oracle = reference map in lock-step; closed BFS to fixpoint (E1), seeded deep trees (E2), fault enumeration (E3), program enumerators; worker subprocess with abort capture",
         }],
         "checks": checks,
-        "notes": "Every check rebuilds the harness against /repo's working tree (cargo, offline). Exit 0 = held, 1 = VIOLATION line with a replay file, 2 = machinery problem (no verdict). known_findings.json lists fixed defects (7 'fix:' commits in /repo) and one open finding (D8, C08: references yielded by iter_mut outlive the iterator; printed as KNOWN-FINDING, exit 0). seeded/ holds 258 independently written property-breaking changes with the checks that report them (seeded/MATRIX.md).",
+        "notes": "Every check rebuilds the harness against /repo's working tree (cargo, offline). Exit 0 = held, 1 = VIOLATION line with a replay file, 2 = machinery problem (no verdict). known_findings.json lists fixed defects (7 'fix:' commits in /repo) and one open finding (D8, C08: references yielded by iter_mut outlive the iterator; printed as KNOWN-FINDING, exit 0). seeded/ holds 276 independently written property-breaking changes with the checks that report them (seeded/MATRIX.md).",
         "not_applicable": [{"property_id": k, "reason": v} for k, v in sorted(NOT_YET.items())],
     }
     json.dump(m, open("/verif/MANIFEST.json","w"), indent=1)
